@@ -660,9 +660,22 @@ def _literal(e):
     return False
 
 
+def _fold_literal(e):
+    """'x' * 3 and 'a' + 'b' of literals are literals"""
+    if isinstance(e, ast.BinOp) and isinstance(e.left, ast.Constant) and isinstance(e.right, ast.Constant):
+        l_, r_ = e.left.value, e.right.value
+        if isinstance(e.op, ast.Mult) and isinstance(l_, str) and isinstance(r_, int) and not isinstance(r_, bool) and 0 <= r_ <= 64:
+            return ast.copy_location(ast.Constant(value=l_ * r_), e)
+        if isinstance(e.op, ast.Add) and isinstance(l_, str) and isinstance(r_, str):
+            return ast.copy_location(ast.Constant(value=l_ + r_), e)
+    return e
+
+
 def module_constants(tree):
     cands = {}
     for st in tree.body:
+        if isinstance(st, ast.Assign) and len(st.targets) == 1 and isinstance(st.targets[0], ast.Name):
+            st.value = _fold_literal(st.value)
         if isinstance(st, ast.Assign) and len(st.targets) == 1 and isinstance(st.targets[0], ast.Name) and _literal(st.value):
             cands.setdefault(st.targets[0].id, []).append(st)
     if not cands:
